@@ -70,6 +70,9 @@ pub mod validation;
 pub mod build_info;
 
 // Top-level storage manager (manages installations)
+#[cfg(feature = "verif-hooks")]
+pub mod verif_hooks;
+
 mod storage_manager;
 
 pub use build_info::BuildInfoFile;
